@@ -1,6 +1,7 @@
 package main
 
 import (
+	"encoding/json"
 	"flag"
 	"fmt"
 	"os"
@@ -40,6 +41,8 @@ func cmdRun(args []string) int {
 	trace := fs.Bool("trace", false, "trace calls")
 	traceI := fs.Bool("tracei", false, "trace instructions")
 	verbose := fs.Bool("v", false, "verbose")
+	modelFile := fs.String("model", "", "replay JSON whose model is fixed (engine-side replay)")
+	tierF := fs.String("tier", "quick", "tier")
 	fs.Parse(args)
 	var hd []string
 	if *harness != "" {
@@ -59,6 +62,19 @@ func cmdRun(args []string) int {
 	fmt.Fprintf(os.Stderr, "loaded in %.1fs\n", time.Since(t0).Seconds())
 	e.trace, e.traceInstr, e.verbose = *trace, *traceI, *verbose
 	e.solverKind, e.timeoutMs = *solver, *timeout
+	e.tier = *tierF
+	if *modelFile != "" {
+		b, err := os.ReadFile(*modelFile)
+		if err != nil {
+			fmt.Fprintln(os.Stderr, err)
+			return 2
+		}
+		var doc struct {
+			Model map[string]string `json:"model"`
+		}
+		json.Unmarshal(b, &doc)
+		e.fixedModel = doc.Model
+	}
 	rc := 0
 	for _, en := range strings.Split(*entries, ",") {
 		fn, err := findFunc(e, en)
